@@ -27,6 +27,7 @@ static SPINS: AtomicU64 = AtomicU64::new(0);
 static D1_EXITS: AtomicU64 = AtomicU64::new(0);
 static OPEN_BRACKETS: AtomicU64 = AtomicU64::new(0);
 static FLIPS: AtomicU64 = AtomicU64::new(0);
+static SWAPS: AtomicU64 = AtomicU64::new(0);
 
 fn observer(s: u32, _a: usize, _b: usize) {
     let cls = crate::CLASS.with(|c| c.get());
@@ -34,6 +35,8 @@ fn observer(s: u32, _a: usize, _b: usize) {
         SPINS.fetch_add(1, Ordering::SeqCst);
     } else if s == site::HL_B_FLIP && cls & class::MUTATOR != 0 {
         FLIPS.fetch_add(1, Ordering::SeqCst);
+    } else if s == site::HL_W_SWAPPED && cls & class::MUTATOR != 0 {
+        SWAPS.fetch_add(1, Ordering::SeqCst);
     } else if s == site::DISPATCH_EXIT {
         if cls & class::VICTIM != 0 {
             D1_EXITS.fetch_add(1, Ordering::SeqCst);
@@ -46,14 +49,19 @@ fn observer(s: u32, _a: usize, _b: usize) {
 
 struct Victim {
     pth: libc::pthread_t,
+    ktid: i32,
+    tid: u32,
     join: std::thread::JoinHandle<()>,
 }
 
 fn spawn_victim(tid: u32, cls: u32, stop: Arc<AtomicBool>) -> Victim {
     let p = Arc::new(AtomicU64::new(0));
     let p2 = p.clone();
+    let k = Arc::new(AtomicI32::new(0));
+    let k2 = k.clone();
     let join = std::thread::spawn(move || {
         crate::set_thread(tid, cls);
+        k2.store(crate::sig::gettid(), Ordering::SeqCst);
         p2.store(unsafe { libc::pthread_self() } as u64, Ordering::SeqCst);
         pool::victim_spin(&stop);
         director::flush_counts();
@@ -61,7 +69,7 @@ fn spawn_victim(tid: u32, cls: u32, stop: Arc<AtomicBool>) -> Victim {
     while p.load(Ordering::SeqCst) == 0 {
         std::thread::yield_now();
     }
-    Victim { pth: p.load(Ordering::SeqCst) as libc::pthread_t, join }
+    Victim { pth: p.load(Ordering::SeqCst) as libc::pthread_t, ktid: k.load(Ordering::SeqCst), tid, join }
 }
 
 fn wait_until(what: &str, mut f: impl FnMut() -> bool, ms: u64) -> Result<(), String> {
@@ -96,20 +104,43 @@ fn gate_mode(seed: u64, trials: u64) -> i32 {
     let mut done_trials = 0u64;
     let mut max_spins_after = 0u64;
     let mut live_id = None;
+    // signals nothing in this process has touched yet: every eighth trial the writer's operation is the FIRST
+    // registration of one of them (another signal than the one being delivered). The held deliveries walk the old
+    // snapshot all the same, so that writer has to wait for them like any other.
+    let mut fresh_pool: Vec<libc::c_int> = [libc::SIGUSR2, libc::SIGWINCH, libc::SIGURG]
+        .iter()
+        .cloned()
+        .chain(35..=64)
+        .filter(|&n| crate::sig::settable(n))
+        .collect();
+    let mut fresh_used = 0u64;
+    let mut fresh_d2 = 0u64;
     let t0 = crate::now_ms();
     for trial in 0..trials {
         let k1 = 1 + (trial % 3) as usize;
-        let k2 = ((trial / 3) % 4) as usize; // 0 = no second wave
-        let op_register = live_id.is_none();
+        let mut k2 = ((trial / 3) % 4) as usize; // 0 = no second wave
+        let fresh = if trial % 8 == 7 { fresh_pool.pop() } else { None };
+        if fresh.is_some() {
+            // a first registration publishes twice: the fallback (which the held d1 deliveries make it wait for), then
+            // the table. The second wave starts between the two and is what the table's publication has to wait for.
+            k2 = k2.max(1);
+        }
+        let op_register = live_id.is_none() || fresh.is_some();
         director::clear_rules();
         evlog::reset();
         evlog::enable(true);
         SPINS.store(0, Ordering::SeqCst);
         D1_EXITS.store(0, Ordering::SeqCst);
         FLIPS.store(0, Ordering::SeqCst);
+        SWAPS.store(0, Ordering::SeqCst);
         director::set_rule(site::D_BEFORE_ACTION, RuleSpec { mode: mode::PAUSE, class_mask: class::VICTIM, arg: 0, ..Default::default() });
         director::set_rule(site::D_AFTER_DATA_READ, RuleSpec { mode: mode::PAUSE, class_mask: VICTIM2, arg: 1, ..Default::default() });
-        let label = format!("trial {} d1={} d2={} op={}", trial, k1, k2, if op_register { "register" } else { "unregister" });
+        let opname = match fresh {
+            Some(n) => format!("first-registration-of-signal-{}", n),
+            None if op_register => "register".to_string(),
+            None => "unregister".to_string(),
+        };
+        let label = format!("trial {} d1={} d2={} op={}", trial, k1, k2, opname);
         // ---- d1: held inside the read section (old snapshot)
         for v in v1.iter().take(k1) {
             crate::sig::kill_thread(v.pth, sig);
@@ -122,10 +153,19 @@ fn gate_mode(seed: u64, trials: u64) -> i32 {
         let w_done = Arc::new(AtomicBool::new(false));
         let w_ktid = Arc::new(AtomicI32::new(0));
         let (wd, wk) = (w_done.clone(), w_ktid.clone());
-        let cur = live_id.take();
+        let cur = if fresh.is_some() { None } else { live_id.take() };
+        let keep = if fresh.is_some() { live_id.take() } else { None };
         let wj = std::thread::spawn(move || {
             crate::set_thread(30, class::MUTATOR);
             wk.store(crate::sig::gettid(), Ordering::SeqCst);
+            if let Some(n) = fresh {
+                // the action stays registered; the signal is never raised
+                let _ = unsafe { signal_hook_registry::register(n, || ()) }.unwrap();
+                director::lib_exit();
+                director::flush_counts();
+                wd.store(true, Ordering::SeqCst);
+                return keep;
+            }
             let r = match cur {
                 None => Some(unsafe { signal_hook_registry::register(sig, || ()) }.unwrap()),
                 Some(id) => {
@@ -143,6 +183,45 @@ fn gate_mode(seed: u64, trials: u64) -> i32 {
         if w_done.load(Ordering::SeqCst) {
             bad01.push(format!("the writer returned while {} deliveries that began before its swap are still inside their read section (paused at D_BEFORE_ACTION) [{}]", k1, label));
         } else if let Err(e) = r {
+            if fresh.is_some() {
+                // the writer neither waits in a barrier nor has returned. Whatever it is doing, a delivery that begins now
+                // has to get through to its snapshot all the same: it may never wait for another thread.
+                for v in v2.iter().take(k2) {
+                    crate::sig::kill_thread(v.pth, sig);
+                }
+                if wait_until("d2 parked", || director::parked_count(1) as usize == k2, 3_000).is_err() {
+                    let evs = evlog::snapshot();
+                    let parked_now = || director::parked_count(1) as u64;
+                    let asleep: Vec<u32> = v2
+                        .iter()
+                        .take(k2)
+                        .filter(|v| {
+                            let inside = evs.iter().rev().find(|e| e.tid == v.tid && (e.kind == site::DISPATCH_ENTER || e.kind == site::DISPATCH_EXIT)).map(|e| e.kind == site::DISPATCH_ENTER).unwrap_or(false);
+                            inside && crate::probe::stably_blocked_in(v.ktid, &[202], None, 10, 10, &parked_now)
+                        })
+                        .map(|v| v.tid)
+                        .collect();
+                    if !asleep.is_empty() {
+                        let d = format!(
+                            "{} deliveries are paused inside the dispatcher, a writer is in the middle of the first registration of another signal (neither returned nor waiting in a barrier), and {} deliveries that began after that (threads {:?}) sleep in futex inside the dispatcher before reaching their snapshot [{}]",
+                            k1, asleep.len(), asleep, label
+                        );
+                        emit_violation("C03", "delivery-sleeps-in-futex-behind-waiting-writer", &d);
+                        emit(&J::obj()
+                            .set("type", J::s("summary"))
+                            .set("workload", J::s("w_live"))
+                            .set("mode", J::s("gate"))
+                            .set("seed", J::u(seed))
+                            .set("evaluations", J::u(done_trials + 1))
+                            .set("gate_trials", J::u(done_trials + 1))
+                            .set("violations", J::u(1))
+                            .set("wall_ms", J::u(crate::now_ms() - t0)));
+                        use std::io::Write;
+                        let _ = std::io::stdout().flush();
+                        unsafe { libc::_exit(1) };
+                    }
+                }
+            }
             inconclusive = Some(format!("{} [{}]", e, label));
         }
         // ---- d2: starts after the flip, lands in the other slot, held
@@ -154,6 +233,7 @@ fn gate_mode(seed: u64, trials: u64) -> i32 {
                 inconclusive = Some(format!("{} [{}]", e, label));
             }
         }
+        let swaps_at_d2 = SWAPS.load(Ordering::SeqCst);
         if !w_done.load(Ordering::SeqCst) && bad01.is_empty() && inconclusive.is_none() {
             // still must not have returned
             std::thread::yield_now();
@@ -167,32 +247,77 @@ fn gate_mode(seed: u64, trials: u64) -> i32 {
         let _ = wait_until("d1 exits", || D1_EXITS.load(Ordering::SeqCst) as usize >= k1, 10_000);
         let base = SPINS.load(Ordering::SeqCst);
         let mut stuck = false;
-        let tw = crate::now_ms();
-        while !w_done.load(Ordering::SeqCst) {
-            std::thread::yield_now();
-            let extra = SPINS.load(Ordering::SeqCst) - base;
-            if extra > 20_000 {
-                stuck = true;
-                break;
-            }
-            if crate::now_ms() - tw > 20_000 {
-                // not spinning and not done: blocked somewhere?
-                let zero = || SPINS.load(Ordering::SeqCst);
-                if crate::probe::stably_blocked_in(w_ktid.load(Ordering::SeqCst), &[202], None, 10, 10, &zero) {
-                    stuck = true;
-                } else {
-                    inconclusive = Some(format!("writer neither done nor spinning [{}]", label));
+        if fresh.is_some() {
+            // the second wave entered while the fallback's publication was waiting for d1 (the table had not been
+            // swapped by then): the table's publication now has to wait for it
+            if inconclusive.is_none() && bad01.is_empty() && swaps_at_d2 <= 1 {
+                // ... after it has finished the fallback's, which only d1 overlapped (the second wave began after that
+                // flip and sits in the other slot): bounded by the writer's own iterations like every other publication
+                let tw = crate::now_ms();
+                while FLIPS.load(Ordering::SeqCst) < 2 && !w_done.load(Ordering::SeqCst) && crate::now_ms() - tw < 20_000 {
+                    std::thread::yield_now();
+                    if SPINS.load(Ordering::SeqCst) - base > 20_000 {
+                        stuck = true;
+                        break;
+                    }
                 }
-                break;
+                if stuck {
+                    bad18.push(format!(
+                        "every delivery that overlapped the writer's publication of the fallback has returned, {} later deliveries are held in the other slot, and the writer is still waiting in that barrier after {} further iterations of its own [{}]",
+                        k2, SPINS.load(Ordering::SeqCst) - base, label
+                    ));
+                }
+                let r = if stuck { Ok(()) } else { wait_until("writer spinning in the table's barrier", || (FLIPS.load(Ordering::SeqCst) >= 2 && SPINS.load(Ordering::SeqCst) >= base + 2) || w_done.load(Ordering::SeqCst), 10_000) };
+                if stuck {
+                } else if w_done.load(Ordering::SeqCst) && director::parked_count(1) as usize == k2 {
+                    // the held deliveries still refer to the snapshot the writer has already released: letting them go on
+                    // would only crash the process, so the verdict is given here and the process ends
+                    let d = format!("the writer returned while {} deliveries that began before its swap of the table are still inside their read section (paused at D_AFTER_DATA_READ) [{}]", k2, label);
+                    emit_violation("C01", "writer-returned-while-reader-inside", &d);
+                    emit(&J::obj()
+                        .set("type", J::s("summary"))
+                        .set("workload", J::s("w_live"))
+                        .set("mode", J::s("gate"))
+                        .set("seed", J::u(seed))
+                        .set("evaluations", J::u(done_trials + 1))
+                        .set("gate_trials", J::u(done_trials + 1))
+                        .set("violations", J::u(1))
+                        .set("wall_ms", J::u(crate::now_ms() - t0)));
+                    use std::io::Write;
+                    let _ = std::io::stdout().flush();
+                    unsafe { libc::_exit(1) };
+                } else if let Err(e) = r {
+                    inconclusive = Some(format!("{} [{}]", e, label));
+                }
             }
+        } else {
+            let tw = crate::now_ms();
+            while !w_done.load(Ordering::SeqCst) {
+                std::thread::yield_now();
+                let extra = SPINS.load(Ordering::SeqCst) - base;
+                if extra > 20_000 {
+                    stuck = true;
+                    break;
+                }
+                if crate::now_ms() - tw > 20_000 {
+                    // not spinning and not done: blocked somewhere?
+                    let zero = || SPINS.load(Ordering::SeqCst);
+                    if crate::probe::stably_blocked_in(w_ktid.load(Ordering::SeqCst), &[202], None, 10, 10, &zero) {
+                        stuck = true;
+                    } else {
+                        inconclusive = Some(format!("writer neither done nor spinning [{}]", label));
+                    }
+                    break;
+                }
+            }
+            if stuck {
+                bad18.push(format!(
+                    "every delivery that overlapped the writer's publication has returned, {} later deliveries are held in the other slot, and the writer is still waiting after {} further barrier iterations of its own [{}]",
+                    k2, SPINS.load(Ordering::SeqCst) - base, label
+                ));
+            }
+            max_spins_after = max_spins_after.max(SPINS.load(Ordering::SeqCst) - base);
         }
-        if stuck {
-            bad18.push(format!(
-                "every delivery that overlapped the writer's publication has returned, {} later deliveries are held in the other slot, and the writer is still waiting after {} further barrier iterations of its own [{}]",
-                k2, SPINS.load(Ordering::SeqCst) - base, label
-            ));
-        }
-        max_spins_after = max_spins_after.max(SPINS.load(Ordering::SeqCst) - base);
         // ---- release d2, finish
         director::rule_off(site::D_AFTER_DATA_READ);
         director::open_gate(1);
@@ -209,8 +334,16 @@ fn gate_mode(seed: u64, trials: u64) -> i32 {
         evlog::enable(false);
         // ---- log rule (i)
         let evs = evlog::snapshot();
-        let flip = evs.iter().position(|e| e.kind == site::HL_B_FLIP && e.tid == 30);
-        if let Some(flip) = flip {
+        // (a first registration publishes twice - the fallback, then the table; the table's is the last one)
+        let flip = evs.iter().rposition(|e| e.kind == site::HL_B_FLIP && e.tid == 30);
+        if fresh.is_some() {
+            keys.insert(format!("d1={} d2={} op=first-registration swaps_when_d2_parked={}", k1, k2, swaps_at_d2));
+            fresh_used += 1;
+            fresh_d2 += k2 as u64;
+            if samples.len() < 8 {
+                samples.push(J::s(&format!("{}: the table's publication waited for the second wave ({} table/fallback swaps done when it parked)", label, swaps_at_d2)));
+            }
+        } else if let Some(flip) = flip {
             // brackets that contain the flip stamp
             let mut open: std::collections::HashMap<u32, usize> = Default::default();
             let mut last_exit = 0usize;
@@ -225,12 +358,12 @@ fn gate_mode(seed: u64, trials: u64) -> i32 {
                     }
                 }
             }
-            let done_stamp = evs.iter().position(|e| e.kind == site::HL_B_DONE && e.tid == 30).unwrap_or(usize::MAX);
+            let done_stamp = evs.iter().rposition(|e| e.kind == site::HL_B_DONE && e.tid == 30).unwrap_or(usize::MAX);
             let spins_after = evs.iter().enumerate().filter(|(st, e)| e.kind == site::HL_B_SPIN && e.tid == 30 && *st > last_exit && *st < done_stamp).count();
             if last_exit > 0 && spins_after > 3 && !stuck {
                 bad18.push(format!("the writer made {} more barrier iterations after the last overlapping delivery had exited (stamp {}) [{}]", spins_after, last_exit, label));
             }
-            keys.insert(format!("d1={} d2={} op={} spins_after={}", k1, k2, op_register, spins_after));
+            keys.insert(format!("d1={} d2={} op={} spins_after={}", k1, k2, if op_register { "register" } else { "unregister" }, spins_after));
             if samples.len() < 6 {
                 samples.push(J::s(&format!("{}: flip at stamp {}, last overlapping exit {}, spins after it {}, writer done at {}", label, flip, last_exit, spins_after, done_stamp)));
             }
@@ -268,6 +401,8 @@ fn gate_mode(seed: u64, trials: u64) -> i32 {
         .set("distinct_keys", J::arr(keys.iter().map(|k| J::s(k))))
         .set("samples", J::Arr(samples))
         .set("gate_trials", J::u(done_trials))
+        .set("first_registrations_of_a_fresh_signal_as_writer", J::u(fresh_used))
+        .set("deliveries_that_got_through_during_a_first_registration", J::u(fresh_d2))
         .set("max_writer_spins_after_d1_released", J::u(max_spins_after))
         .set("violations", J::u(nviol))
         .set("wall_ms", J::u(crate::now_ms() - t0)));
